@@ -21,7 +21,7 @@ pub fn spec() -> Spec {
         rule: "one case per labeled connected commuting symbol; per case: minimal_image vs Moore refinement (size, verified morphism onto it, no proper quotient, isomorphic to the reference quotient), is_minimal, automorphisms as a set vs verified brute force, morphism(s, t, e) for t in {s, minimal image, harness-built 2-sheeted covers (both directions), every symbol of size <= 2} and every base image e, minimal images of covers(s, <=3). Non-trivial = size >= 2 and (non-minimal or has a non-identity automorphism).",
         assumptions: &["symbols are built through build_set/build_sym_using_vs (validated by C02)", "covers(s, k) is used only as a supply of covers; each is verified to be a covering by the reference model before use"],
         bounds: |t| json!({"dim1_max_size": 5, "dim2_max_size": t.pick(4, 5), "dim3_max_size": t.pick(3, 4), "V": [1,2,3], "dim3_size4_V": [1,2],
-            "two_sheeted_cocycles": "all edge cocycles supported on <= 2 edges", "crate_covers_max_sheets": 3, "crate_covers_on_sizes_up_to": t.pick(3, 4)}),
+            "two_sheeted_cocycles": "all edge cocycles supported on <= 2 edges", "mid_family": {"dim2_sizes": [5, t.pick(10, 12)], "dim3_sizes": [4, t.pick(7, 8)], "V": [1,2,3], "max_branched_orbits": t.pick(1, 2), "coxeter_symbols_max_chambers": t.pick(384, 1152), "renumberings": ["reverse", "shuffle-in"]}, "crate_covers_max_sheets": 3, "crate_covers_on_sizes_up_to": t.pick(3, 4)}),
     }
 }
 
@@ -101,7 +101,12 @@ fn check_morphisms(ctx: &mut Ctx, case: &Value, s: &RS, cs: &PartialDSym, t: &RS
 }
 
 fn check_one(ctx: &mut Ctx, s: &RS, small: &[RS]) {
-    let case = json!({"family": "labeled", "sym": rs_to_json(s)});
+    check_sym(ctx, "labeled", s, small, true);
+}
+
+/// `full`: also the harness-built 2-sheeted covers, the small targets and the crate's covers (small symbols only)
+fn check_sym(ctx: &mut Ctx, family: &str, s: &RS, small: &[RS], full: bool) {
+    let case = json!({"family": family, "sym": rs_to_json(s)});
     ctx.announce(&case);
     let w = s.n as u64;
     let k = s.nr_congruence_classes();
@@ -184,6 +189,9 @@ fn check_one(ctx: &mut Ctx, s: &RS, small: &[RS]) {
         }
     }
     check_morphisms(ctx, &case, s, &cs, &refq, "reference quotient");
+    if !full {
+        return;
+    }
     let covs = two_sheeted_covers(s);
     for c in &covs {
         check_morphisms(ctx, &case, s, &cs, c, "2-sheeted cover");
@@ -233,6 +241,70 @@ fn check_one(ctx: &mut Ctx, s: &RS, small: &[RS]) {
     }
 }
 
+/// mid-size and large symbols: one representative per class of D-sets from the generator (sizes 5-9 [10] in
+/// dimension 2, 4-6 [7] in dimension 3) with few branched orbits, each also under two systematic renumberings
+/// (minimal image and number of automorphisms must not depend on the numbering), and the Coxeter coset symbols
+/// (up to 120 [384] chambers; large automorphism groups, minimal images with one or a few chambers)
+fn mid_family(ctx: &mut Ctx) {
+    use rust_dsymbols::dsets::DSet;
+    use rust_dsymbols::generators::dset_generators::DSets;
+    let tier = ctx.tier;
+    let mut symbols: Vec<RS> = vec![];
+    for (dim, lo, hi, maxb) in [(2usize, 5usize, tier.pick(10, 12), tier.pick(1, 2)), (3, 4, tier.pick(7, 8), 1)] {
+        let sets = ctx.supply("DSets::new", || DSets::new(dim, hi).filter(|d| d.size() >= lo).collect::<Vec<_>>());
+        for ds in sets {
+            if let Some(plain) = from_dset(&ds) {
+                if plain.is_involutive() && plain.is_connected() && plain.commutes() {
+                    for_each_branching(&plain.ops, &[1, 2, 3], maxb, &mut |s| symbols.push(s.clone()));
+                }
+            }
+        }
+    }
+    for (_, c) in coxeter_symbols(tier.pick(384, 1152)) {
+        if c.n >= 6 {
+            symbols.push(c);
+        }
+    }
+    for s in symbols {
+        if !ctx.take() {
+            continue;
+        }
+        check_sym(ctx, "mid", &s, &[], false);
+        if ctx.nviolations() > 0 {
+            return;
+        }
+        // numbering independence
+        let k = s.nr_congruence_classes();
+        let nauts = s.automorphisms().len();
+        let key = s.minimal_quotient().iso_key_bfs();
+        let rn = systematic_renumberings(s.n);
+        for (rname, p) in rn.iter().filter(|(n, _)| n == "reverse" || n == "shuffle-in") {
+            let t = s.relabel(p);
+            let tcase = json!({"family": "mid", "sym": rs_to_json(&t), "renumbering": rname});
+            ctx.announce(&tcase);
+            ctx.ops(2);
+            match ctx.guard(|| {
+                let ct = to_partial_dsym(&t);
+                (from_dsym(&minimal_image(&ct)), ct.automorphisms().len(), ct.is_minimal())
+            }) {
+                Ok((Some(mi), na, ismin)) => {
+                    if valid_symbol(&mi).is_err() || !mi.is_connected() || mi.n != k || mi.iso_key_bfs() != key {
+                        ctx.violation("minimal_image", tcase.clone(), format!("minimal_image = {} under this numbering, the reference quotient is {}", mi.describe(), key.describe()), s.n as u64);
+                    }
+                    if na != nauts {
+                        ctx.violation("automorphisms", tcase.clone(), format!("{} automorphisms under this numbering, {} exist", na, nauts), s.n as u64);
+                    }
+                    if ismin != (k == s.n) {
+                        ctx.violation("is_minimal", tcase.clone(), format!("is_minimal = {} but the coarsest congruence has {} classes on {} chambers", ismin, k, s.n), s.n as u64);
+                    }
+                }
+                Ok((None, _, _)) => ctx.violation("incomplete", tcase, "minimal_image is not a complete symbol".into(), s.n as u64),
+                Err(m) => ctx.violation("panic:minimal_image", tcase, m, s.n as u64),
+            }
+        }
+    }
+}
+
 fn run(ctx: &mut Ctx) {
     let tier = ctx.tier;
     let mut fams: Vec<(usize, usize, Vec<usize>)> = vec![];
@@ -255,6 +327,9 @@ fn run(ctx: &mut Ctx) {
                 check_one(ctx, s, &small);
             }
         });
+    }
+    if ctx.nviolations() == 0 {
+        mid_family(ctx);
     }
 }
 
